@@ -25,6 +25,9 @@
 (*       operations                                                          *)
 (*  thr  uncaught throw of every kind of value through every entry point     *)
 (*  copy Otto.Copy() of runtimes in various states                           *)
+(*  expo Go-side accessors x nested arrays (shape x leaf kind x leaf kind)   *)
+(*  defp defineProperty / defineProperties with all 324 partial descriptors  *)
+(*       x exotic targets                                                    *)
 EXTENDS Naturals, Sequences, SequencesExt, FiniteSets, TLC, Json, Randomization, C02Fns
 CONSTANTS OpenDev, Fam, NSel, Deep
 VARIABLES blk, cs
@@ -86,6 +89,8 @@ Init == /\ cs = None
            \/ Want("hist") /\ blk \in {<<"hist", o1, o2>> : o1 \in 1..NH, o2 \in 1..NH}
            \/ Want("thr") /\ blk \in {<<"thr", e, 0>> : e \in 1..Len(S!ThrowEntries)}
            \/ Want("copy") /\ blk = <<"copy", 0, 0>>
+           \/ Want("expo") /\ blk \in {<<"expo", sh, x>> : sh \in 1..Len(S!NestShapes), x \in 1..Len(S!Leaves)}
+           \/ Want("defp") /\ blk \in {<<"defp", t, r>> : t \in 1..Len(S!DefTargets), r \in 1..Len(S!DefRoutes)}
 
 Cases(b) ==
     LET fam == b[1]  i == b[2]  j == b[3]
@@ -143,6 +148,11 @@ Cases(b) ==
                                           p \in RandomSubset(40, 0..(NH * NH - 1))} ELSE {})
           [] fam = "thr" ->
                {[fam |-> "thr", entry |-> S!ThrowEntries[i], val |-> AllThrowVals[v]] : v \in 1..Len(AllThrowVals)}
+          [] fam = "expo" ->
+               {[fam |-> "expo", acc |-> S!ExpoAccessors[a], shape |-> S!NestShapes[i], x |-> S!Leaves[j], y |-> S!Leaves[y]] :
+                    a \in 1..Len(S!ExpoAccessors), y \in 1..Len(S!Leaves)}
+          [] fam = "defp" ->
+               {[fam |-> "defp", route |-> S!DefRoutes[j], target |-> S!DefTargets[i], desc |-> d] : d \in S!Descs}
           [] fam = "copy" ->
                {[fam |-> "copy", setup |-> S!CopySetups[x]] : x \in 1..Len(S!CopySetups)}
 
@@ -152,7 +162,7 @@ Cases(b) ==
 Next == cs = None /\ UNCHANGED blk /\ cs' = [fam |-> "block"]
 
 (* the expectation of a case under an instance of the specification *)
-Expect(FnE(_, _, _, _), AccE(_, _, _), RecE(_, _, _, _), IrqE(_, _), SrcE(_, _), NestE(_, _, _), EscE(_, _, _, _), HistE(_), ThrE(_, _), CopyE(_), c) ==
+Expect(FnE(_, _, _, _), AccE(_, _, _), RecE(_, _, _, _), IrqE(_, _), SrcE(_, _), NestE(_, _, _), EscE(_, _, _, _), HistE(_), ThrE(_, _), CopyE(_), ExpoE(_, _, _, _), DefE(_, _, _), c) ==
     CASE c.fam = "fn" -> [reply |-> FnE(Fns[c.fi], c.route, c.recv, c.args), val |-> ""]
       [] c.fam = "acc" -> [reply |-> AccE(c.acc, c.kind, c.l), val |-> ""]
       [] c.fam = "rec" -> RecE(c.form, c.d, c.l, c.mode)
@@ -163,8 +173,10 @@ Expect(FnE(_, _, _, _), AccE(_, _, _), RecE(_, _, _, _), IrqE(_, _), SrcE(_, _),
       [] c.fam = "hist" -> [reply |-> HistE(c.ops), val |-> ""]
       [] c.fam = "thr" -> [reply |-> ThrE(c.entry, c.val), val |-> ""]
       [] c.fam = "copy" -> [reply |-> CopyE(c.setup), val |-> ""]
-StrictE(c) == Expect(S!FnExpect, S!AccExpect, S!RecExpect, S!IrqExpect, S!SrcExpect, S!NestExpect, S!EscExpect, S!HistExpect, S!ThrowExpect, S!CopyExpect, c)
-LooseE(c) == Expect(L!FnExpect, L!AccExpect, L!RecExpect, L!IrqExpect, L!SrcExpect, L!NestExpect, L!EscExpect, L!HistExpect, L!ThrowExpect, L!CopyExpect, c)
+      [] c.fam = "expo" -> [reply |-> ExpoE(c.acc, c.shape, c.x, c.y), val |-> ""]
+      [] c.fam = "defp" -> [reply |-> DefE(c.route, c.target, c.desc), val |-> ""]
+StrictE(c) == Expect(S!FnExpect, S!AccExpect, S!RecExpect, S!IrqExpect, S!SrcExpect, S!NestExpect, S!EscExpect, S!HistExpect, S!ThrowExpect, S!CopyExpect, S!ExpoExpect, S!DefExpect, c)
+LooseE(c) == Expect(L!FnExpect, L!AccExpect, L!RecExpect, L!IrqExpect, L!SrcExpect, L!NestExpect, L!EscExpect, L!HistExpect, L!ThrowExpect, L!CopyExpect, L!ExpoExpect, L!DefExpect, c)
 
 (* not generated: resource matters (see Totality!Heavy) and the slow witnesses of open deviations *)
 Skipped(c) ==
